@@ -21,7 +21,7 @@ import (
 // C16: signature confirmations.
 
 type ConfOp struct {
-	Kind    string `json:"kind"` // confirm | mkbatch | mkcall | newss | execbatch | unbond | rebond | block
+	Kind    string `json:"kind"` // confirm | mkbatch | mkcall | newss | execbatch | execss | unbond | rebond | block
 	Val     int    `json:"val"`
 	Via     int    `json:"via"`    // 0 validator account, 1 own orchestrator, 2 foreign account, 3 another validator's orchestrator
 	Chain   int    `json:"chain"`  // 0 ethereum, 1 bsc
@@ -62,8 +62,11 @@ func genConfCase(t *rapid.T) interface{} {
 			op.Pick = rapid.IntRange(1, 4).Draw(t, "invnonce")
 		case k < 78:
 			op.Kind = "newss"
-		case k < 82:
+		case k < 81:
 			op.Kind = "execbatch"
+			op.Pick = rapid.IntRange(0, 3).Draw(t, "pick")
+		case k < 83:
+			op.Kind = "execss" // the external chain adopted one of the published signer sets and the validators report it
 			op.Pick = rapid.IntRange(0, 3).Draw(t, "pick")
 		case k < 84:
 			op.Kind = "rereg" // a validator replaces its external key and orchestrator
@@ -369,6 +372,19 @@ func runConfCase(ci interface{}, rec *pbt.Rec) *pbt.Failure {
 			b := bs[op.Pick%len(bs)]
 			n := h.K.GetLastObservedEventNonce(h.Ctx(), mtypes.ChainID(ch)) + 1
 			any, _ := mtypes.PackEvent(&mtypes.BatchExecutedEvent{ExternalCoinId: b.ExternalTokenId, EventNonce: n, ExternalHeight: 100, BatchNonce: b.BatchNonce, TxHash: "0x1", FeePaid: sdk.NewInt(1), FeePayer: sim.ExtUser(3).Hex()})
+			for vi := 0; vi < 4; vi++ {
+				if h.Staking.Vals[vi].Bonded {
+					h.Deliver(&mtypes.MsgSubmitExternalEvent{Event: any, Signer: sdk.AccAddress(sim.ValAddr(vi)).String(), ChainId: ch})
+				}
+			}
+		case "execss":
+			sets := h.SignerSets(ch)
+			if len(sets) == 0 {
+				break
+			}
+			ss := sets[len(sets)-1-op.Pick%len(sets)]
+			n := h.K.GetLastObservedEventNonce(h.Ctx(), mtypes.ChainID(ch)) + 1
+			any, _ := mtypes.PackEvent(&mtypes.SignerSetTxExecutedEvent{EventNonce: n, SignerSetTxNonce: ss.Nonce, ExternalHeight: 100, Members: ss.Signers, TxHash: "0x2"})
 			for vi := 0; vi < 4; vi++ {
 				if h.Staking.Vals[vi].Bonded {
 					h.Deliver(&mtypes.MsgSubmitExternalEvent{Event: any, Signer: sdk.AccAddress(sim.ValAddr(vi)).String(), ChainId: ch})
